@@ -108,6 +108,44 @@ func (e InfraError) Error() string { return "infrastructure: " + e.Msg }
 
 var theT *testing.T
 
+// Standard output and error of the simulated command: the os.Stdout/os.Stderr
+// variables are pointed at two scratch files for the duration of a run, which
+// captures knut's own output as well as what uninstrumented libraries (cobra's
+// usage and error texts) print, with the real routing between the two streams.
+var capOut, capErr *os.File
+
+func capFiles() (*os.File, *os.File) {
+	if capOut == nil {
+		dir := "/dev/shm"
+		if _, err := os.Stat(dir); err != nil {
+			dir = os.TempDir()
+		}
+		var err error
+		if capOut, err = os.CreateTemp(dir, "knutsim-out-"); err != nil {
+			panic(InfraError{err.Error()})
+		}
+		if capErr, err = os.CreateTemp(dir, "knutsim-err-"); err != nil {
+			panic(InfraError{err.Error()})
+		}
+		os.Remove(capOut.Name())
+		os.Remove(capErr.Name())
+	}
+	for _, f := range []*os.File{capOut, capErr} {
+		f.Truncate(0)
+		f.Seek(0, 0)
+	}
+	return capOut, capErr
+}
+
+func readCap(f *os.File, n int64) string {
+	if n <= 0 {
+		return ""
+	}
+	b := make([]byte, n)
+	k, _ := f.ReadAt(b, 0)
+	return string(b[:k])
+}
+
 // Run executes one spec inside its own synctest bubble.
 func Run(spec *Spec) *Out { return RunFunc(spec, nil) }
 
@@ -158,7 +196,22 @@ func RunFunc(spec *Spec, root func()) *Out {
 			} else {
 				st = simrt.NewStream(spec.Sched.Seed)
 			}
+			fo, fe := capFiles()
+			var nOut, nErr int64
+			realOut, realErr := os.Stdout, os.Stderr
+			os.Stdout, os.Stderr = fo, fe
+			defer func() {
+				os.Stdout, os.Stderr = realOut, realErr
+				if out.Result != nil {
+					out.Result.Stdout = readCap(fo, nOut)
+					out.Result.Stderr = readCap(fe, nErr)
+				}
+			}()
 			cfg := simrt.Config{
+				OnFinish: func() {
+					nOut, _ = fo.Seek(0, 1)
+					nErr, _ = fe.Seek(0, 1)
+				},
 				Sched: st, MapSeed: spec.Sched.MapSeed, MapMode: spec.Sched.MapMode, LockYield: spec.Sched.LockYield,
 				Bias: spec.Sched.Bias, Workers: spec.Sched.Workers, MaxSteps: spec.MaxSteps, MaxTasks: spec.MaxTasks,
 				FS: fs, Wait: synctest.Wait, KeepEvents: spec.KeepEvents,
@@ -174,8 +227,6 @@ func RunFunc(spec *Spec, root func()) *Out {
 			out.Result = simrt.Run(cfg, func() {
 				c := cmd.CreateCmd("sim")
 				c.SetArgs(argv)
-				c.SetOut(simrt.Stdout)
-				c.SetErr(simrt.Stderr)
 				if err := c.Execute(); err != nil {
 					fmt.Fprintln(c.ErrOrStderr(), err)
 					simrt.Exit(1)
